@@ -1,5 +1,24 @@
 (* C06 — Insertion evaluation agrees with brute-force simulation. *)
-From VRP Require Import Base.Tac Model.Core Spec.Feasible Model.Eval Proofs.CoreTimeP Proofs.CoreCapP Proofs.CoreEvalP Proofs.CoreMultiP.
+From VRP Require Import Base.Tac Model.Core Spec.Feasible Model.Eval Proofs.CoreTimeP Proofs.CoreCapP Proofs.CoreEvalP Proofs.CoreMultiP
+  Proofs.CoreScanP Proofs.CoreScanCompleteP.
+
+(* exhaustive best-insertion mode (LegSelection::Exhaustive, any objective estimate `est`, any route-level cost), closed tours,
+   single-task jobs with one place and one time window, constrained by time windows / shift end / capacity:
+   if the simulation finds SOME position feasible, the scan reports a place, and the place it reports is feasible.
+   (For several places/windows and for the last leg of open tours the statement is false: see the three _refuted theorems.) *)
+Theorem C06_scan_complete_closed : forall dur est v t j p w rc,
+  s_places j = [p] -> p_tws p = [w] ->
+  (forall a b, 0 <= dur a b) -> 0 <= p_svc p ->
+  sched_ok dur t -> feasible dur v t = true ->
+  Forall (fun a => a_tws a <= v_shift_end v) t -> fst w <= v_shift_end v ->
+  (forall d, d_change (a_dem (hd d t)) = 0) -> 0 <= start_delivery t -> simple_demand (s_dem j) ->
+  forall k, (2 <= length t)%nat -> (k < length t - 1)%nat ->
+  feasible dur v (insert_after t k (target t j p w k)) = true ->
+  let r := analyze dur est v true t j PAny rc in
+  sc_place r <> None /\
+  (forall pl, sc_place r = Some pl ->
+     feasible dur v (insert_after t (sc_index r) (target t j p w (sc_index r))) = true /\ pl = pdata t j p w (sc_index r)).
+Proof. exact scan_complete_closed. Qed.
 
 (* the cached latest-arrival value is exact: a feasible tail is feasible for another way of reaching it
    iff the arrival at its head is not later than `latest_of` *)
